@@ -788,6 +788,19 @@ def gen_hostile_block(rnd):
             out.append(("PUSH", hexv(i + 1)) if rnd.random() < 0.6 else (rnd.choice(ENV0), None))
         for _ in range(rnd.randrange(0, 6)):
             out.append((rnd.choice(["DUP16", "SWAP16", "DUP1", "SWAP1", "ADD", "POP", "DUP9"]), None))
+    elif r < 0.68:
+        # layered dependency DAG: groups of mutually independent stores (distinct constant keys) separated by an
+        # access to a symbolic key that depends on all of them -> exponentially many dependency paths
+        layers = rnd.randrange(6, 30)
+        width = rnd.choice([2, 2, 3])
+        key = 0
+        sto = rnd.random() < 0.6
+        st, ld = ("SSTORE", "SLOAD") if sto else ("MSTORE", "MLOAD")
+        for _ in range(layers):
+            for _ in range(width):
+                out += [("DUP1", None), ("PUSH", hexv(key if sto else key * 0x20)), (st, None)]
+                key += 1
+            out += [("DUP2", None), (ld, None), ("POP", None)] if rnd.random() < 0.5 else [("DUP2", None), ("DUP1", None), (st, None)]
     elif r < 0.8:
         # long chains of dependent memory accesses (transitive dependency edges)
         n = rnd.randrange(12, 40)
